@@ -182,7 +182,9 @@ def explore(
     def on_alarm(signum, frame):
         raise Hang()
 
-    old_handler = signal.signal(signal.SIGALRM, on_alarm)
+    # CPU time of this process (ITIMER_PROF), not wall time: a real hang burns CPU, while a slow path on a loaded machine
+    # must not be taken for one (a blocked process is ended by the runner's wall cap per case)
+    old_handler = signal.signal(signal.SIGPROF, on_alarm)
     try:
         while True:
             now = time.process_time()
@@ -208,7 +210,7 @@ def explore(
                     args = deepcopyext(pre_args, CopyMode.REGULAR, {})
                     ret = None
                     hang = False
-                    signal.setitimer(signal.ITIMER_REAL, hang_wall_s)
+                    signal.setitimer(signal.ITIMER_PROF, hang_wall_s)
                     try:
                         with ExceptionFilter() as ef, ResumedTracing():
                             try:
@@ -218,9 +220,9 @@ def explore(
                     except Hang:
                         hang = True
                     finally:
-                        signal.setitimer(signal.ITIMER_REAL, 0)
+                        signal.setitimer(signal.ITIMER_PROF, 0)
                     if hang:
-                        detail = "hang: path exceeded %.0fs wall" % hang_wall_s
+                        detail = "hang: path exceeded %.0fs CPU" % hang_wall_s
                         failed = True
                     elif ef.ignore and not ef.user_exc:
                         raise IgnoreAttempt("ignored by filter")
@@ -281,8 +283,8 @@ def explore(
                 res.exhausted = True
                 break
     finally:
-        signal.setitimer(signal.ITIMER_REAL, 0)
-        signal.signal(signal.SIGALRM, old_handler)
+        signal.setitimer(signal.ITIMER_PROF, 0)
+        signal.signal(signal.SIGPROF, old_handler)
     res.cpu_s = round(time.process_time() - cpu0, 3)
     res.wall_s = round(time.time() - wall0, 3)
     res.solver_calls = SOLVER.calls - c0
